@@ -38,6 +38,8 @@ WRONG = {
     # families of the typed-position matrix (every entry is applied at every position)
     "T-list": ["g_slist", "g_oilist", "g_llist", "g_olist", "g_pair_is", "g_opair", "7", "g_map", "g_list.map(g_fo)", "g_list.map(g_fs)"],
     "T-fixed": ["g_oilist", "g_pair_is", "g_opair", "g_triple", "g_slist", "7"],
+    # a fixed shape whose slots are of DIFFERENT kinds: an open list fits it only if its element type fits every slot
+    "T-fixed2": ["g_slist", "g_list", "g_pair", "g_pair_is", "g_triple", "g_oilist", "7"],
     "T-map": ["g_map_ss", "g_map_so", "g_map_is", "g_list", "7"],
     "T-fn": ["g_fs", "g_fo", "g_fv", "g_f2", "greet", "7"],
     # a function that takes `int?` is wanted: one that takes a plain `int` cannot be called with nil
@@ -47,7 +49,7 @@ WRONG = {
     "T-optint": ["g_ostr", "\"txt\"", "g_list", "g_oilist"],
 }
 # expected type text, a well-typed value, whether the declaration must be const
-TYPED = {"T-list": ("[int...]", "g_list", False), "T-fixed": ("[int, int]", "g_pair", True), "T-map": ("map[str, int]", "g_map", False), "T-fn": ("fn(int) -> int", "g_fn", False), "T-fnopt": ("fn(int?) -> int", "g_fop", False),
+TYPED = {"T-list": ("[int...]", "g_list", False), "T-fixed": ("[int, int]", "g_pair", True), "T-fixed2": ("[str, int]", "g_pair_si", True), "T-map": ("map[str, int]", "g_map", False), "T-fn": ("fn(int) -> int", "g_fn", False), "T-fnopt": ("fn(int?) -> int", "g_fop", False),
          "T-obj": ("G", "g_obj", False), "T-lobj": ("[G...]", "g_lobj", False), "T-optint": ("int?", "g_oint", False)}
 POSITIONS = ["decl", "reassign", "argument", "return", "return-method", "return-closure", "field-init", "field-assign", "element", "push", "mapvalue", "branch-return"]
 PRELUDE = """g_list: [int...] = [1, 2, 3]
@@ -125,6 +127,7 @@ g_obool: bool? = true
 g_olist: [int...]? = [1, 2]
 g_llist: [[int...]...] = [[1]]
 const g_pair: [int, int] = [1, 2]
+const g_pair_si: [str, int] = ["a", 2]
 const g_pair_is: [int, str] = [1, "a"]
 const g_opair: [int?, int?] = [1, nil]
 const g_triple: [int, int, int] = [1, 2, 3]
